@@ -3,12 +3,14 @@
 #pragma once
 #include "sim.hpp"
 #include <functional>
+#include <sqlite3.h>
 
 struct FaultEnum {
     bool enabled = false; bool quick = true;
     std::string prop = "C17";
     uint64_t seed = 0; long steps = 0;
     bool allow_cb_code = false; int cb_code = 0;            // cif_parse may also return what the error callback returned
+    TxMonitor txm; sqlite3 *watch_db = NULL;                 // connection of the CIF the workload operates on (no iterator open between calls)
     std::function<void(const char *fn, long k)> after_failed;   // invariant check after a failed attempt (state valid / unchanged)
     // f must be re-invocable; returns the return code of the attempt during which no allocation failed
     template <class F> int call(const char *fn, F f, bool null_on_failure_fn = false) {
@@ -21,6 +23,9 @@ struct FaultEnum {
         for (long k = 1; k < 200000;) {
             A.arm(k); int rc = f(); bool fired = A.fired; A.disarm();
             if (!fired) return rc;
+            // absorbed failures (SQLite's own recovery, the library's retry of a buffer growth with a smaller request): the
+            // call completed normally and is judged by the model like the unfaulted execution
+            if (rc != CIF_MEMORY_ERROR && rc != CIF_ERROR && !(allow_cb_code && cb_code != 0 && rc == cb_code) && !null_on_failure_fn) { g_stats.inc(sq ? "fault.alloc_sqlite.absorbed" : "fault.alloc_libcif.absorbed"); ev("%s: %s allocation failure #%ld absorbed -> %s", fn, sq ? "storage-engine" : "library", k, rc_name(rc)); txm.check(prop, fn, rc, watch_db, "the CIF", sq, k); return rc; }
             ++steps;
             g_stats.inc(sq ? "fault.alloc_sqlite.fired" : "fault.alloc_libcif.fired");
             g_stats.cover(hmix(hmix(hstr(fn), (uint64_t) k * 2 + (sq ? 1 : 0)), (uint64_t) rc));
@@ -28,7 +33,8 @@ struct FaultEnum {
             bool ok = rc == CIF_MEMORY_ERROR || rc == CIF_ERROR || (allow_cb_code && cb_code != 0 && rc == cb_code);
             if (null_on_failure_fn) ok = true;
             if (!ok) throw Violation(prop + ".code", strprintf("%s:%s:%s", fn, sq ? "sqlite" : "libcif", rc_name(rc)), strprintf("%s returned %s when %s allocation #%ld failed (CIF_MEMORY_ERROR or CIF_ERROR required)", fn, rc_name(rc), sq ? "storage-engine" : "library", k), -1);
-            if (after_failed) after_failed(fn, k);
+            txm.check(prop, fn, rc, watch_db, "the CIF", sq, k);
+            if (after_failed) { try { after_failed(fn, k); } catch (Violation &v) { v.detail += strprintf(" [%s allocation #%ld failed at %s]", sq ? "storage-engine" : "library", k, A.describe_fire().c_str()); throw; } }
             if (quick && k > 8) k += 1 + (long) skip.below(5); else ++k;
         }
         throw Violation(prop + ".enumeration", fn, "more than 200000 allocation sites in one call", -1);
